@@ -11,6 +11,7 @@ CONSTANTS
   Catalogue <- CatNone
   MaxHist = 0
   DecoderScope = "perIteration"
+  EqKinds <- KindsPlain
   CopyVariant = "copy"
 CONSTRAINT ExportC
 INVARIANT RoundTrip
